@@ -640,7 +640,8 @@ def _tags(p):
 # the re-used object has to raise too (same error family) instead of serving the estimate of an earlier state; where it returns,
 # the values have to agree and len(frequencies()) == len(psd).
 #
-# Oracle only: the Lean object model (driver mode O) treats `compute` as total, so it has no failing computation to compare with.
+# The fhist histories are oracle only (their operation language is richer than the model's); the kind "fmodel" below runs
+# histories with failing computations against the failing-estimator model of Model/ObjectF.lean.
 
 _rng3 = np.random.default_rng(707)          # own stream: DATA[0..7] / DATAY keep their values
 SHORT_LENS = (1, 2, 3, 4, 5, 6, 8)
@@ -1044,11 +1045,131 @@ def _tags_f(p):
     return t
 
 
+# ---- kind "fmodel": histories with failing computations against the failing-estimator model (Model/ObjectF.lean, driver `objhistf`)
+#
+# `ok` (does the estimator return for an attribute snapshot?) is an uninterpreted parameter of the model (theorems readF_raises_iff,
+# readF_fail_again, freshF_eq_reachable hold for every `ok`).  To execute the model the harness supplies its value at the snapshot
+# the object holds when an operation runs: it tracks the attribute values the history has assigned (pure bookkeeping, below) and
+# asks a FRESHLY CONSTRUCTED object with those values whether its estimate can be computed.  An operation executed with
+# ok = false is written `op!`.  Compared per operation: raised / returned, sides, NFFT, df, len(frequencies()), and for every read
+# that returns the psd of a fresh object built from the snapshot the model says is stored.
+
+_OK_CACHE = {}
+
+
+def _track(a, op):
+    """the attribute values after an assignment (mirrors what the setters store; observations change nothing)"""
+    k, v = op
+    a = dict(a)
+    if k in ("data", "datalist"):
+        a["dataId"], a["cplx"], a["N"] = v, int(np.iscomplexobj(DATA[v])), len(DATA[v])
+    elif k == "nfft":
+        if v is None:
+            a["nfft"] = a["N"]
+        elif v == "nextpow2":
+            n = 1
+            while n < a["N"]:
+                n *= 2
+            a["nfft"] = n
+        else:
+            a["nfft"] = v
+    elif k in ("samp", "detrend", "scale", "window", "lag", "ar", "ma"):
+        a[k] = v
+    return a
+
+
+def _estimable(cls, a, mt):
+    key = (cls, mt) + tuple(a[f] for f in FIELDS)
+    if key not in _OK_CACHE:
+        try:
+            f = build(cls, a, mt)
+            _ = f.psd
+            _OK_CACHE[key] = True
+        except Exception:
+            _OK_CACHE[key] = False
+    return _OK_CACHE[key]
+
+
+def model_fmodel(p):
+    cls = p["cls"]
+    mt = p.get("mt", "unity")
+    a = init_attrs(cls, p["data0"])
+    par = 1 if CLS[cls][0] else 0
+    head = [par, a["cplx"], a["N"], a["nfft"], a["samp"], a["detrend"], a["scale"], a["window"], a["lag"], a["ar"], a["ma"], a["dataId"]]
+    toks = []
+    for op in p["ops"]:
+        op = tuple(op)
+        a = _track(a, op)
+        t = op_token(op)
+        if op[0] in ("read", "cread", "call") or op[0] == "sides":
+            if not _estimable(cls, a, mt):
+                t += "!"
+        toks.append(t)
+    return ("O", " ".join(["objhistf", "O"] + [str(h) for h in head] + toks))
+
+
+def impl_fmodel(p):
+    cls = p["cls"]
+    o = build(cls, init_attrs(cls, p["data0"]), p.get("mt", "unity"))
+    obs = []
+    ncall = 0
+    for op in p["ops"]:
+        op = tuple(op)
+        err = 0
+        psd = None
+        cside = None
+        try:
+            cside = cread_side(o, op[1]) if op[0] == "cread" else None
+            if op[0] == "call":
+                ncall += 1
+            if op[0] == "call" and ncall % 2 == 0:
+                o.run()
+            else:
+                psd = apply_op(o, op)
+        except Exception:
+            err = 1                     # a caller's try/except: the history goes on
+        obs.append({"err": err, "sides": SIDE_CODE[o.sides], "nfft": o.NFFT, "df": o.df, "flen": len(o.frequencies()), "psd": psd,
+                    "sampling": o.sampling, "cside": cside})
+    return obs
+
+
+def _gen_fmodel(nrng, quick):
+    R, C = ("read", None), ("call", None)
+    for ci, cls in enumerate(CLS):
+        mts = MT_METHODS if cls == "MultiTapering" else ("unity",)
+        for mt in mts[: (1 if quick else len(mts))]:
+            base = {"cls": cls} if mt == "unity" else {"cls": cls, "mt": mt}
+            for data0 in (0, 1):
+                fails = f_fail_ops(cls, data0)
+                filler = [o for o in f_filler(cls) if o[0] != "datalist"]
+                for fi, (F, heal) in enumerate(fails):
+                    if quick and (fi + ci + data0) % 2:
+                        continue
+                    obs = [R, C, ("sides", "centerdc"), ("sides", "twosided"), ("cread", "centerdc"), ("sides", "default")]
+                    o1 = obs[int(nrng.integers(0, len(obs)))]
+                    o2 = obs[int(nrng.integers(0, len(obs)))]
+                    forms = [[R, F, R, R], [R, F, o1, o2, R], [F, R, heal, R], [C, ("nfft", 32), F, o1, R, heal, o2, R],
+                             [R, ("sides", "centerdc"), F, ("sides", "twosided"), R, heal, R]]
+                    for fj, form in enumerate(forms):
+                        if quick and fj >= 2 and (fj + fi) % 3:
+                            continue
+                        yield ("fmodel", dict(base, data0=data0, ops=[list(o) for o in form]))
+                for i in range(2 if quick else 40):
+                    ln = int(nrng.integers(4, 11))
+                    alpha = filler + [f for f, _ in fails] + [h for _, h in fails] + [R, R, C, ("cread", "centerdc"), ("cread", "twosided")]
+                    h = [alpha[int(nrng.integers(0, len(alpha)))] for _ in range(ln)]
+                    yield ("fmodel", dict(base, data0=data0, ops=[list(o) for o in h + [R]]))
+
+
 KINDS = {
     "hist": {"impl": impl_hist, "model": model_hist, "post": post_hist, "oracle": oracle_hist, "rtol": 1e-9, "atol": 1e-300,
              "key": _key, "nontrivial": _nontrivial, "tags": _tags},
     # oracle only (no "model"): see the comment above FAIL
     "fhist": {"oracle": oracle_fhist, "key": _key_f, "nontrivial": _nontrivial_f, "tags": _tags_f},
+    "fmodel": {"impl": impl_fmodel, "model": model_fmodel, "post": post_hist, "rtol": 1e-9, "atol": 0.0, "no_repeat": True,
+               "key": lambda p: "fmodel|%s|%s|%d|%s" % (p["cls"], p.get("mt", "unity"), p["data0"], ";".join(op_name(tuple(o)) for o in p["ops"])),
+               "nontrivial": lambda p: len(p["ops"]) >= 3,
+               "tags": lambda p: ["fmodel", "cls:" + p["cls"]]},
 }
 
 
@@ -1166,6 +1287,7 @@ def gen(rng, nrng, tier):
     # ------------------------------------------------------------------------------------------------------------------
     # kind "fhist" (generated last: the random streams of the cases above are the same as before)
     yield from gen_fhist(nrng, quick)
+    yield from _gen_fmodel(nrng, quick)
 
 
 def gen_fhist(nrng, quick):
